@@ -15,6 +15,7 @@ import Driver.Plug.WhenComb
 import Driver.Plug.Wake
 import Driver.Plug.Pipeline
 import Driver.Plug.HBDet
+import Driver.Plug.ArenaTables
 /-! The list of plug-in models (one import and one entry per model). -/
 namespace Driver
 
@@ -36,7 +37,8 @@ def plugins : List (String × Plug) := [
   ("whenany", Driver.PlugWhenComb.plugAny),
   ("wake", Driver.PlugWake.plug),
   ("pipe", Driver.PlugPipe.plug),
-  ("hbdet", Driver.PlugHBDet.plug)
+  ("hbdet", Driver.PlugHBDet.plug),
+  ("arenatbl", Driver.PlugArenaTables.plug)
 ]
 
 end Driver
